@@ -185,6 +185,40 @@ func vpT_C14_arb21() { vpC14Arb(2, vpChoice(2)) }
 func vpT_C14_arb22() { vpC14Arb(2, 2) }
 func vpT_C14_arb3()  { vpC14Arb(3, vpChoice(3)) }
 
+// an absolute URL against strings that are not absolute URLs but share its parts (scheme-relative,
+// host-less, scheme-only, opaque): symmetric in both argument orders, and list membership agrees
+func vpH_C14_partial() {
+	h := string([]byte{vpLetterCase()})
+	seg := string([]byte{vpLetterCase()})
+	abs := IRI([]string{"http", "https", "HTTP"}[vpChoice(3)] + "://" + h + ".ex/" + seg)
+	var other IRI
+	switch vpChoice(9) {
+	case 0:
+		other = IRI("//" + h + ".ex/" + seg)
+	case 1:
+		other = IRI("/" + seg)
+	case 2:
+		other = IRI(h + ".ex/" + seg)
+	case 3:
+		other = IRI("http:/" + seg)
+	case 4:
+		other = IRI("http:" + h + ".ex/" + seg)
+	case 5:
+		other = IRI("mailto:" + seg + "@" + h + ".ex")
+	case 6:
+		other = IRI("://" + h + ".ex/" + seg)
+	case 7:
+		other = IRI("")
+	default:
+		other = IRI("//" + h + ".ex/" + seg + "?k=v#f")
+	}
+	cs := vpBool()
+	vpAssert("partial-symmetric", abs.Equals(other, cs) == other.Equals(abs, cs))
+	vpAssert("partial-reflexive", other.Equals(other, cs) && abs.Equals(abs, cs))
+	vpAssert("partial-contains-agrees", IRIs{other}.Contains(abs) == abs.Equals(other, false) && IRIs{abs}.Contains(other) == other.Equals(abs, false))
+	vpReach("end")
+}
+
 // thorough: everything varied together on two segments and two pairs
 func vpT_C14_full() {
 	ka, va := vpQuery(vpChoice(3))
